@@ -203,7 +203,12 @@ pub fn execute(sc: &Scenario) -> Exec {
             ThreadSpec { hash_seed: tp.hash_seed, clock: tp.clock.clone(), body: Box::new(move |y: &Yielder| run_thread(plan, inputs, y)) }
         })
         .collect();
-    let (threads, decisions, stats) = run_scheduled(specs, &sc.prefs);
+    let stuck_before = crate::sched::STUCK_RUNS.load(std::sync::atomic::Ordering::Relaxed);
+    let (threads, mut decisions, stats) = run_scheduled(specs, &sc.prefs);
+    if crate::sched::STUCK_RUNS.load(std::sync::atomic::Ordering::Relaxed) != stuck_before {
+        // marker decision: this execution was released from scheduling (see sched.rs)
+        decisions.push(255);
+    }
     let mut h = fnv64(&decisions);
     for t in &threads {
         for it in &t.items {
@@ -1187,6 +1192,9 @@ pub fn run_one(seed: u64, run: u64, agg: &mut Batch, keep_hashes: bool) {
                     }
                 }
             }
+        }
+        if ex.decisions.last() == Some(&255) {
+            agg.c.inc("scheduler_released_stuck_run");
         }
         if sc.threads.len() > 1 {
             agg.c.distinct("interleavings", &format!("{:?}", ex.decisions));
